@@ -32,7 +32,7 @@ impl Prop for C08 {
         true
     }
     fn random_cases(tier: Tier) -> u64 {
-        tier.pick(4_000, 60_000)
+        tier.pick(4_000, 200_000)
     }
     fn strategy(tier: Tier) -> BoxedStrategy<LzInput> {
         lz_input(tier.pick(20_000, 300_000)).prop_map(LzInput::Spec).boxed()
